@@ -82,6 +82,28 @@ def gen(run):
         for sz in (32, 80):
             for pn in (("prog",) if len(combo) > 1 else ("x", "program", "_a", "a1", "P" * 40, "ecb_at", "zzz", "my-prog")):
                 cases.append({"text": text, "size": sz, "procname": pn, "origin": "+".join(combo), "features": []})
+    # templates x operand shapes (string literals and hoisted calls sharing one emitted line)
+    for name, body, after in K.TEMPLATES:
+        sl = K.slots(body)
+        defaults = ["7" if x == "n" else '"X"' for x in sl]
+        combos = []
+        for i, x in enumerate(sl):
+            for sn, st in (K.NUM_SHAPES if x == "n" else K.STR_SHAPES):
+                sh = list(defaults)
+                sh[i] = st
+                combos.append((f"slot{i}={sn}", sh))
+        for sn_n, st_n in K.NUM_SHAPES:
+            for sn_s, st_s in K.STR_SHAPES:
+                combos.append((f"all={sn_n}/{sn_s}", [st_n if x == "n" else st_s for x in sl]))
+        run.states += 1 + len(combos)
+        run.transitions += len(combos)
+        seen_t = set()
+        for how, sh in combos:
+            text = K.template_program(K.fill(body, sh), after)
+            if text in seen_t:
+                continue
+            seen_t.add(text)
+            cases.append({"text": text, "size": 32 if len(seen_t) % 2 else 80, "procname": "prog", "origin": f"tpl:{name}:{how}", "features": []})
     # hostile text
     for d in core.cube(run, [("pos", POSITIONS), ("h", HOSTILE), ("with", ['PLAY "C" : B$ = STRING$( 2 , "Q" )', 'PRINT 1']), ("size", [32, 80])]):
         pname, tpl = d["pos"]
